@@ -31,6 +31,8 @@ type PropDef struct {
 	Kinds []string `json:"kinds"`
 	// NameFilter: only obligations whose name matches (regexp) count (empty: all).
 	NameFilter string `json:"name_filter"`
+	// ExcludeName: obligations whose name matches are not part of this property (they belong to another one).
+	ExcludeName string `json:"exclude_name"`
 	// Sweep: every library function matching this regexp is visited with the property's hook set
 	// (frame sweeps); empty = none.
 	Sweep      string   `json:"sweep"`
@@ -193,6 +195,10 @@ func runCheck(args []string) int {
 	if pd.NameFilter != "" {
 		nameRe = regexp.MustCompile(pd.NameFilter)
 	}
+	var exclRe *regexp.Regexp
+	if pd.ExcludeName != "" {
+		exclRe = regexp.MustCompile(pd.ExcludeName)
+	}
 	hooks := hooksByName(P, pd.Hooks)
 	var results []*FuncResult
 	var bindFails []*Obl
@@ -275,6 +281,9 @@ func runCheck(args []string) int {
 				continue
 			}
 			if nameRe != nil && !nameRe.MatchString(o.Name) {
+				continue
+			}
+			if exclRe != nil && exclRe.MatchString(o.Name) {
 				continue
 			}
 			keep = append(keep, o)
